@@ -991,7 +991,9 @@ class Evaluator:
                 env[n] = self.subscript(starkw, Const(n))
             elif n in dnames:
                 d = defaults[dnames.index(n)]
-                env[n] = self.eval_expr(d, State(), Frame(None, fi.module, None, 0))
+                dv = self.eval_expr(d, State(), Frame(None, fi.module, None, 0))
+                # a default that is not a constant is ONE object created when the function was defined, shared by every call
+                env[n] = dv if isinstance(dv, (Const, Ref)) else App("default_object", (Const(fi.fq), Const(n), dv), d)
             else:
                 env[n] = Sym("param:" + n)
         if len(pos) > len(names):
